@@ -95,6 +95,14 @@ func (e *engine) childRange(seed uint64, tier string, from, to uint64, outPath s
 		out.Steps += uint64(len(h.Steps))
 		for _, c := range class {
 			out.Classes[c]++
+			if c == "deep_churn" {
+				// a Churn step stands for A checked operations
+				for _, s := range h.Steps {
+					if s.Op == "Churn" {
+						out.Steps += uint64(s.A) - 1
+					}
+				}
+			}
 		}
 		if nt {
 			out.Nontrivial++
